@@ -70,6 +70,9 @@ def rows():
         "empty_horizon": lambda v=0: _as(v, []) if v % 3 != 2 else [],
         "fractional_horizon": lambda v=0: _as(v, [1, 2.5], float_ok=True),
         "wrongtype_horizon": lambda v=0: ["next week", (1, 2), {1: 2}][v % 3],
+        # time points are what an ABSOLUTE horizon holds; passed bare (or as relative) they are of the wrong type
+        "timepoints_as_relative_horizon": lambda v=0: [pd.period_range("2000-01", periods=2, freq="M"),
+                                                       pd.date_range("2000-01-01", periods=2, freq="D")][v % 2],
     }
     for name, mk in fcs().items():
         for fault, by in bad_y.items():
@@ -347,6 +350,7 @@ def rows():
             (lambda c: (lambda: (temporal_train_test_split(c["y"], fh=ForecastingHorizon([1, 2])), None))))
     for fault, mkv in (("duplicate_horizon", lambda: ([1, 1], True)), ("fractional_horizon", lambda: (np.array([0.5, 1]), True)),
                        ("wrongtype_horizon", lambda: ({1, 2}, True)), ("wrongtype_is_relative", lambda: ([1, 2], "yes")),
+                       ("timepoints_as_relative_horizon", lambda: (pd.period_range("2000-01", periods=2, freq="M"), True)),
                        ("none_horizon", lambda: (None, True))):
         add("ForecastingHorizon", fault, (lambda c, mkv=mkv: (lambda: (ForecastingHorizon(mkv()[0], is_relative=mkv()[1]), None))),
             (lambda c: (lambda: (ForecastingHorizon([1, 2], is_relative=True), None))))
@@ -375,6 +379,18 @@ def rows():
                 f = mk([(n, type(e)()) for n, e in good])
                 return lambda: (f.fit(c["y"], fh=[1, 2]), f)
             add(cname + ".fit", fault, faulty_c, control_c)
+    # a component named like an OPTIONAL constructor argument of its composite
+    for cname, (mk, good) in comp.items():
+        clash = {"ensemble": "aggfunc", "stacking": "n_jobs", "multiplexer": "selected_forecaster"}[cname]
+
+        def faulty_o(c, mk=mk, clash=clash):
+            f = mk([(clash, N()), ("c", P())])
+            return lambda: (f.fit(c["y"], fh=[1, 2]), f)
+
+        def control_o(c, mk=mk, good=good):
+            f = mk([(n, type(e)()) for n, e in good])
+            return lambda: (f.fit(c["y"], fh=[1, 2]), f)
+        add(cname + ".fit", "composite_name_clashes_with_optional_parameter", faulty_o, control_o)
     for fault, steps in (("composite_step_not_a_transformer", lambda: [("t", N()), ("f", N())]),
                          ("composite_last_step_not_a_forecaster", lambda: [("d", Detrender()), ("f", Detrender())]),
                          ("composite_duplicate_names", lambda: [("d", Detrender()), ("d", N())]),
